@@ -700,10 +700,12 @@ def run(ctx):
             kind = kinds[(i // 15) % len(kinds)] if fn != 'natural_breaks' else ['small', 'wide', 'frac', 'nonf32'][(i // 3) % 4]
             if fn == 'natural_breaks':
                 rows, cols = rng.randint(1, 3), rng.randint(2, 4)
+                if i % 4 == 2:
+                    rows, cols = rng.randint(3, 5), rng.randint(4, 8)      # larger fits: k up to 8 below
             else:
                 rows, cols = rng.randint(1, 6), rng.randint(2, 6)
             a = rand_raster(rng, dtype, rows, cols, kind)
-            k = rng.randint(2, 9 if fn != 'natural_breaks' else 4)
+            k = rng.randint(2, 9 if fn != 'natural_breaks' else (8 if rows * cols >= 12 else 4))
             if fn != 'natural_breaks' and i % 2 == 1:
                 # all k >= 2: large class counts on a raster with enough cells (percentile / cut vectors of every length)
                 k = rng.randint(10, 64)
